@@ -2,7 +2,7 @@
 # run_seed.sh <name> <ID>... : apply /verif/seeded/<name>/patch.diff to /repo, run the checks, undo
 NAME=$1; shift
 cd /verif
-git -C /repo apply seeded/$NAME/patch.diff || exit 2
+git -C /repo apply /verif/seeded/$NAME/patch.diff || exit 2
 for P in "$@"; do
   ./check $P 2>&1 | grep -v conda | tail -2 | cut -c1-400
 done
